@@ -38,6 +38,7 @@ type spec struct {
 	Subs  []subSpec
 	C     int
 	Decoy bool // a second topic with its own subscription and message
+	Batch bool // a publisher hands all its messages to one Publish call
 }
 
 func (sp spec) name() string {
@@ -47,6 +48,9 @@ func (sp spec) name() string {
 	}
 	for _, s := range sp.Subs {
 		n += "-" + s.String()
+	}
+	if sp.Batch {
+		n += "/batch"
 	}
 	return n
 }
@@ -175,6 +179,30 @@ func body(sp spec) {
 	for p := 0; p < sp.Pubs; p++ {
 		p := p
 		go func() {
+			if sp.Batch {
+				var us []string
+				var ms []*message.Message
+				for i := 0; i < sp.Msgs; i++ {
+					u := fmt.Sprintf("p%dm%d", p, i)
+					us, ms = append(us, u), append(ms, origs[u])
+				}
+				if anyConc {
+					vs.Observe("pubstart %s", us[0])
+					for _, u := range us {
+						pubStart[u] = vs.ObsCount()
+					}
+				}
+				if err := g.Publish("t", ms...); err != nil {
+					vs.Fail("publish-error", "Publish(%v) on an open Pub/Sub failed: %v", us, err)
+				}
+				for _, u := range us {
+					origs[u].Payload = []byte("recycled by the publisher")
+					origs[u].Metadata.Set("recycled", "yes")
+					snapsAfter[u] = origs[u].Copy()
+					pubDone[u] = true
+				}
+				return
+			}
 			for i := 0; i < sp.Msgs; i++ {
 				u := fmt.Sprintf("p%dm%d", p, i)
 				if anyConc {
@@ -347,6 +375,11 @@ func init() {
 		add(reg.Quick, 20, spec{Cfg: cfg, Pubs: 1, Msgs: 1, Subs: []subSpec{{Nacks: 1}, {Concurrent: true, Mutate: true}}, C: 2}, -1)
 		add(reg.Quick, 20, spec{Cfg: cfg, Pubs: 2, Msgs: 1, Subs: []subSpec{{Nacks: 1, Mutate: true}}, C: 2}, -1)
 		add(reg.Quick, 20, spec{Cfg: cfg, Pubs: 1, Msgs: 1, Subs: []subSpec{{Nacks: 0}}, C: 2, Decoy: true}, -1)
+		cb := 1 // two preemptions only where the blocking publisher keeps the space small
+		if cfg.Blocking {
+			cb = 2
+		}
+		add(reg.Quick, 20, spec{Cfg: cfg, Pubs: 1, Msgs: 2, Batch: true, Subs: []subSpec{{Nacks: 0}, {Concurrent: true}}, C: cb}, 2)
 		add(reg.Thorough, 40, spec{Cfg: cfg, Pubs: 2, Msgs: 1, Subs: []subSpec{{Nacks: 2}, {Concurrent: true}}, C: 2}, 2)
 		add(reg.Thorough, 40, spec{Cfg: cfg, Pubs: 1, Msgs: 2, Subs: []subSpec{{Nacks: 1, Mutate: true}, {Concurrent: true, Nacks: 1}}, C: 2}, 2)
 	}
